@@ -17,3 +17,29 @@ func init() {
 
 func runPositiveControls() {}
 func runSeededCorpus(pid, repo string) map[string]any { return map[string]any{"variants": 0} }
+
+var baseAssumptions = []string{
+	"go/packages, go/types and go/ssa of golang.org/x/tools v0.29.0 are correct",
+	"protobuf, grpc/status, grpc/metadata, encoding/base64 and context behave as documented (used as axioms)",
+	"transports deliver in order and honour their context",
+	"user handlers do not touch a stream after returning; services are registered before serving",
+	"only a structural necessary condition is decided; the run-time behaviour is not",
+}
+
+func init() {
+	register(&propSpec{
+		id: "C01",
+		explanation: "Structural necessary conditions of 'a unary call returns exactly the handler's reply to exactly the caller's request', decided on the SSA of /repo without running it: atomic fresh ids (C01.1), one id per call registered/unregistered/sent (C01.2), registration dominates the request write (C01.3), replies echo the inbound id (C01.4), dispatch is a registry lookup keyed by the id of the very envelope forwarded (C01.5), each request reaches one dispatch site, one processUnaryRpc call, one handler invocation, one hand-off (C01.6), payload provenance is Materialize(Marshal(x)) / &received.Body.Data with no altering step (C01.7), handlers run only behind the header/method/destination/service gate (C01.8). Equality of decoded and sent payloads and the 64-caller interleavings are NOT decided.",
+		ruleText: "obligation = one rule instance (access, call site, envelope field, path); non-trivial = decided through dominance, a path search or a provenance chain",
+		assumptions: baseAssumptions,
+		run: func(c *Ctx, thorough bool) {
+			c.guard("C01.1", func() { ruleAtomicIds(c, "C01.1") })
+			c.guard("C01.2", func() { ruleOneIdPerCall(c, "C01.2") })
+			c.guard("C01.3", func() { ruleRegisterBeforeWrite(c, "C01.3") })
+			c.guard("C01.4", func() { ruleReplyEchoesId(c, "C01.4") })
+			c.guard("C01.5", func() { ruleDispatchById(c, "C01.5") })
+			c.guard("C01.6", func() { ruleHandlerExactlyOnce(c, "C01.6") })
+			c.guard("C01.7", func() { rulePayloadProvenance(c, "C01.7") })
+		},
+	})
+}
